@@ -38,21 +38,84 @@ def _apps(formulas):
     return decls
 
 
+def _is_ground(t):
+    seen = set()
+    stack = [t]
+    while stack:
+        x = stack.pop()
+        if x.get_id() in seen:
+            continue
+        seen.add(x.get_id())
+        if z3.is_var(x):
+            return False
+        stack.extend(x.children())
+    return True
+
+
+def _collect(formulas, red_decl_ids):
+    """Scan formulas: ground / non-ground applications of reduction symbols, index-like ground terms."""
+    seen = set()
+    apps = {}  # decl id -> {"ground": {key: args}, "nonground": bool}
+    consts = {}
+    stack = list(formulas)
+    while stack:
+        t = stack.pop()
+        i = t.get_id()
+        if i in seen:
+            continue
+        seen.add(i)
+        if z3.is_quantifier(t):
+            stack.append(t.body())
+            continue
+        if z3.is_app(t):
+            d = t.decl()
+            did = d.get_id()
+            if did in red_decl_ids:
+                e = apps.setdefault(did, {"ground": {}, "nonground": False})
+                args = [t.arg(k) for k in range(t.num_args())]
+                if all(_is_ground(a) for a in args):
+                    e["ground"][tuple(a.get_id() for a in args)] = args
+                else:
+                    e["nonground"] = True
+            elif t.num_args() == 0 and d.kind() == z3.Z3_OP_UNINTERPRETED and t.sort() == z3.IntSort():
+                consts[i] = t
+            stack.extend(t.children())
+    return apps, consts
+
+
 def reds_in(ctx: Ctx, formulas):
+    """Reductions reachable from formulas, with their lemma instances attached (r._axioms)."""
     out = {}
+    done_keys = set()
     frontier = list(formulas)
-    while frontier:
-        decls = _apps(frontier)
+    allf = list(formulas)
+    ids = {r.decl().get_id(): r for r in ctx.reds.values()}
+    rounds = 0
+    while frontier and rounds < 6:
+        rounds += 1
+        apps, consts = _collect(allf, set(ids))
+        cands = list(consts.values())[:40]
         frontier = []
-        for r in ctx.reds.values():
-            if r.id in out:
-                continue
-            present = r.decl().get_id() in decls
-            if present:
+        for did, e in apps.items():
+            r = ids[did]
+            if r.id not in out:
                 out[r.id] = r
-                ax = red_axioms(ctx, r)
-                r._axioms = ax
+                r._axioms = []
+            if e["nonground"] and (r.id, "q") not in done_keys:
+                done_keys.add((r.id, "q"))
+                ax = red_axioms(ctx, r, None, cands)
+                r._axioms.extend(ax)
                 frontier.extend(ax)
+            for key, args in e["ground"].items():
+                if (r.id, key) in done_keys:
+                    continue
+                done_keys.add((r.id, key))
+                ax = red_axioms(ctx, r, args, cands)
+                r._axioms.extend(ax)
+                frontier.extend(ax)
+        allf.extend(frontier)
+    apps, _ = _collect(allf, set(ids))
+    ctx._last_ground_apps = {ids[d].id: e for d, e in apps.items()}
     return list(out.values())
 
 
@@ -79,97 +142,174 @@ def _q(vars_, body, pats=None):
     return z3.ForAll(vars_, body)
 
 
-def red_axioms(ctx: Ctx, r: Red):
-    """Instances of library lemmas (tvc/lemmas.py proves the schemas by induction)."""
-    o = _outer_vars(r)
+def _count_cond(r, o):
+    """If the summand is syntactically If(c, 1, 0) return c as a function of k."""
+    probe = z3.Int(f"probe_{r.id}")
+    try:
+        t = r.body(tuple(o), (probe,))
+    except Exception:
+        return None
+    if z3.is_app(t) and t.decl().kind() == z3.Z3_OP_ITE and z3.is_int_value(t.arg(1)) and z3.is_int_value(t.arg(2)) \
+            and t.arg(1).as_long() == 1 and t.arg(2).as_long() == 0:
+        def c(k, r=r, o=o):
+            tt = r.body(tuple(o), (k,))
+            return tt.arg(0)
+        return c
+    return None
+
+
+def red_axioms(ctx: Ctx, r: Red, ground, cands):
+    """Instances of library lemmas (tvc/lemmas.py proves the schemas by induction).
+
+    ground = list of ground outer arguments (axioms for that application, the bound index stays
+    quantified and is additionally instantiated at the index-like ground terms of the query),
+    or None for the version quantified over the outer arguments (applications under binders)."""
+    if ground is None:
+        o = _outer_vars(r)
+        qo = list(o)
+    else:
+        o = list(ground)
+        qo = []
     app = r.app(o)
-    pat = [app] if r.outer_rank else None
+    pat = [app] if (qo and r.outer_rank) else None
     ks = [z3.Int(f"k_{r.id}_{j}") for j in range(len(r.ns))]
-    ink = AND(*[z3.And(k >= 0, k < zint(n)) for k, n in zip(ks, r.ns)])
+    rng = lambda kk: AND(*[z3.And(zint(k) >= 0, zint(k) < zint(n)) for k, n in zip(kk, r.ns)])
+    ink = rng(ks)
     body = lambda oo, kk: r.body(tuple(oo), tuple(kk))
     ax = []
+
+    def forall_k(fn, instances=True):
+        """fn(kk) -> formula; quantified over the bound indices + explicit instances."""
+        ax.append(_q(qo + ks, fn(ks)))
+        if instances and ground is not None and len(ks) == 1:
+            n = zint(r.ns[0])
+            insts = [z3.IntVal(0), z3.simplify(n - 1)]
+            for c in cands:
+                insts.extend([c, c - 1, c + 1])
+            seen = set()
+            for t in insts:
+                t = z3.simplify(t)
+                if t.get_id() in seen:
+                    continue
+                seen.add(t.get_id())
+                f = fn([t])
+                if not isinstance(f, bool):
+                    ax.append(f)
+
     kind = r.kind
     if kind in ("any", "all"):
         ws = [_skolem(r, f"w{j}") for j in range(len(r.ns))]
         wk = [w(o) for w in ws]
-        inw = AND(*[z3.And(k >= 0, k < zint(n)) for k, n in zip(wk, r.ns)])
+        inw = rng(wk)
         if kind == "any":
-            ax.append(_q(o, IMPL(app, AND(inw, body(o, wk))), pat))
-            ax.append(_q(o + ks, IMPL(AND(ink, body(o, ks)), app)))
+            ax.append(_q(qo, IMPL(app, AND(inw, body(o, wk))), pat))
+            forall_k(lambda kk: IMPL(AND(rng(kk), body(o, kk)), app))
         else:
-            ax.append(_q(o + ks, IMPL(AND(app, ink), body(o, ks))))
-            ax.append(_q(o, IMPL(z3.Not(app), AND(inw, z3.Not(ops.B_(body(o, wk))))), pat))
+            forall_k(lambda kk: IMPL(AND(app, rng(kk)), body(o, kk)))
+            ax.append(_q(qo, IMPL(z3.Not(app), AND(inw, z3.Not(ops.B_(body(o, wk))))), pat))
         return ax
-    k = ks[0]
     n = zint(r.ns[0])
     if kind == "sum":
         zero = 0
-        b_ok = body(o, [k])
+        cc = _count_cond(r, o) if r.dtype == "i" else None
+        if cc is not None:
+            # counting booleans: 0 <= cnt <= n; cnt = 0 iff none; cnt = n iff all
+            w_some = _skolem(r, "wsome")(o)
+            w_not = _skolem(r, "wnot")(o)
+            ax.append(_q(qo, AND(app >= 0, app <= z3.If(n >= 0, n, 0)), pat))
+            ax.append(_q(qo, OR(app == 0, AND(w_some >= 0, w_some < n, cc(w_some))), pat))
+            forall_k(lambda kk: IMPL(AND(app == 0, rng(kk)), z3.Not(cc(kk[0]))))
+            ax.append(_q(qo, OR(app == n, AND(w_not >= 0, w_not < n, z3.Not(cc(w_not)))), pat))
+            forall_k(lambda kk: IMPL(AND(app == n, rng(kk)), cc(kk[0])))
+            return ax
         wn = _skolem(r, "wneg")(o)
-        ax.append(_q(o, IMPL(n <= 0, app == zero), pat))
-        # non-negative summands: sum >= each summand >= 0; sum = 0 iff all zero
+        ax.append(_q(qo, IMPL(n <= 0, app == zero), pat))
         nonneg_fail = AND(wn >= 0, wn < n, body(o, [wn]) < zero)
-        ax.append(_q(o, OR(nonneg_fail, app >= zero), pat))
-        ax.append(_q(o + [k], OR(nonneg_fail, IMPL(ink, b_ok <= app))))
-        ax.append(_q(o + [k], OR(nonneg_fail, IMPL(AND(app == zero, ink), b_ok == zero))))
+        ax.append(_q(qo, OR(nonneg_fail, app >= zero), pat))
+        forall_k(lambda kk: OR(nonneg_fail, IMPL(rng(kk), body(o, kk) <= app)), instances=False)
+        forall_k(lambda kk: OR(nonneg_fail, IMPL(AND(app == zero, rng(kk)), body(o, kk) == zero)), instances=False)
         wz = _skolem(r, "wnz")(o)
-        # all summands zero -> sum zero (contrapositive with witness)
-        ax.append(_q(o, OR(app == zero, AND(wz >= 0, wz < n, body(o, [wz]) != zero)), pat))
+        ax.append(_q(qo, OR(app == zero, AND(wz >= 0, wz < n, body(o, [wz]) != zero)), pat))
         if r.dtype == "i":
             w01 = _skolem(r, "w01")(o)
             b01 = body(o, [w01])
             fail01 = AND(w01 >= 0, w01 < n, z3.Not(z3.And(b01 >= 0, b01 <= 1)))
-            ax.append(_q(o, OR(fail01, app <= n), pat))
+            ax.append(_q(qo, OR(fail01, app <= n), pat))
             w1 = _skolem(r, "wn1")(o)
-            ax.append(_q(o, OR(fail01, app == n, AND(w1 >= 0, w1 < n, body(o, [w1]) != 1)), pat))
-            ax.append(_q(o + [k], OR(fail01, IMPL(AND(app == n, ink), b_ok == 1))))
+            ax.append(_q(qo, OR(fail01, app == n, AND(w1 >= 0, w1 < n, body(o, [w1]) != 1)), pat))
+            forall_k(lambda kk: OR(fail01, IMPL(AND(app == n, rng(kk)), body(o, kk) == 1)), instances=False)
         return ax
     if kind in ("max", "min"):
         w = _skolem(r, "warg")(o)
         if r.dtype == "b":
             return ax
         cmp = (lambda a, b: a <= b) if kind == "max" else (lambda a, b: a >= b)
-        ax.append(_q(o + [k], IMPL(ink, cmp(body(o, [k]), app))))
-        ax.append(_q(o, IMPL(n >= 1, AND(w >= 0, w < n, body(o, [w]) == app)), pat))
+        forall_k(lambda kk: IMPL(rng(kk), cmp(body(o, kk), app)))
+        ax.append(_q(qo, IMPL(n >= 1, AND(w >= 0, w < n, body(o, [w]) == app)), pat))
         return ax
     if kind in ("argmax", "argmin"):
         cmp = (lambda a, b: a <= b) if kind == "argmax" else (lambda a, b: a >= b)
-        ax.append(_q(o, IMPL(n >= 1, AND(app >= 0, app < n)), pat))
-        ax.append(_q(o + [k], IMPL(ink, cmp(body(o, [k]), body(o, [app])))))
+        ax.append(_q(qo, IMPL(n >= 1, AND(app >= 0, app < n)), pat))
+        forall_k(lambda kk: IMPL(rng(kk), cmp(body(o, kk), body(o, [app]))))
         return ax
     return ax
 
 
-def sum_ext_axioms(reds):
-    """Pairwise extensionality for sums: equal lengths and summands -> equal sums."""
+def sum_ext_axioms(reds, ground_apps=None):
+    """Pairwise extensionality for sums (lemma sum.ext): equal lengths and summands -> equal sums.
+    Instantiated for the pairs of ground applications present; quantified over the outer
+    arguments only for reductions that occur under binders."""
     sums = [r for r in reds if r.kind == "sum"]
     ax = []
+    ground_apps = ground_apps or {}
+    cnt = [0]
+
+    def one(r1, o1, r2, o2, qv):
+        cnt[0] += 1
+        name = f"wext_{r1.id}_{r2.id}_{cnt[0]}"
+        if qv:
+            f = z3.Function(name, *([z3.IntSort()] * len(qv)), z3.IntSort())
+            w = f(*qv)
+        else:
+            w = z3.Int(name)
+        n1, n2 = zint(r1.ns[0]), zint(r2.ns[0])
+        diff = AND(w >= 0, w < n1, r1.body(tuple(o1), (w,)) != r2.body(tuple(o2), (w,)))
+        a1, a2 = r1.app(o1), r2.app(o2)
+        body = OR(n1 != n2, diff, a1 == a2)
+        if not qv:
+            return body
+        q1 = [v for v in qv if any(v.eq(x) for x in o1)]
+        q2 = [v for v in qv if any(v.eq(x) for x in o2)]
+        pats = None
+        if q1 and q2:
+            pats = [z3.MultiPattern(a1, a2)]
+        elif q1:
+            pats = [a1]
+        elif q2:
+            pats = [a2]
+        return _q(qv, body, pats)
+
     for i, r1 in enumerate(sums):
         for r2 in sums[i:]:
             if r1.dtype != r2.dtype:
                 continue
-            o1 = _outer_vars(r1, "a")
-            o2 = _outer_vars(r2, "b")
-            if r1 is r2 and not o1:
-                continue
-            name = f"wext_{r1.id}_{r2.id}"
-            if o1 or o2:
-                f = z3.Function(name, *([z3.IntSort()] * (len(o1) + len(o2))), z3.IntSort())
-                w = f(*(o1 + o2))
-            else:
-                w = z3.Int(name)
-            n1, n2 = zint(r1.ns[0]), zint(r2.ns[0])
-            diff = AND(w >= 0, w < n1, r1.body(tuple(o1), (w,)) != r2.body(tuple(o2), (w,)))
-            a1, a2 = r1.app(o1), r2.app(o2)
-            body = OR(n1 != n2, diff, a1 == a2)
-            pats = None
-            if o1 and o2:
-                pats = [z3.MultiPattern(a1, a2)]
-            elif o1:
-                pats = [a1]
-            elif o2:
-                pats = [a2]
-            ax.append(_q(o1 + o2, body, pats))
+            g1 = ground_apps.get(r1.id, {"ground": {}, "nonground": True})
+            g2 = ground_apps.get(r2.id, {"ground": {}, "nonground": True})
+            pairs = 0
+            for k1, a1 in g1["ground"].items():
+                for k2, a2 in g2["ground"].items():
+                    if r1 is r2 and k1 >= k2:
+                        continue
+                    if pairs > 12:
+                        break
+                    pairs += 1
+                    ax.append(one(r1, list(a1), r2, list(a2), []))
+            if g1["nonground"] or g2["nonground"]:
+                o1 = _outer_vars(r1, "a")
+                o2 = _outer_vars(r2, "b")
+                if r1 is r2 and not o1:
+                    continue
+                ax.append(one(r1, o1, r2, o2, o1 + o2))
     return ax
 
 
@@ -187,22 +327,38 @@ class Result:
         self.reason = reason
 
 
+def _skolemize_neg(goal):
+    """not(goal) in negation normal form with its existentials Skolemized (z3 'nnf' tactic), so that the
+    Skolem constants are visible as instantiation candidates for the reduction lemmas."""
+    try:
+        g = z3.Goal()
+        g.add(z3.Not(goal))
+        res = z3.Then("simplify", "nnf")(g)
+        out = []
+        for sub in res:
+            out.extend(list(sub))
+        return out
+    except Exception:
+        return [z3.Not(goal)]
+
+
 def build_query(ctx: Ctx, ob, extra_axioms=()):
     fs = [h for h in ob.hyps if not isinstance(h, bool)]
-    goal = ob.goal
-    base = fs + [goal] + list(extra_axioms)
+    neg = _skolemize_neg(ob.goal)
+    goal = z3.Not(z3.And(*neg)) if neg else z3.BoolVal(False)  # empty NNF goal = not(goal) is true
+    base = fs + neg + list(extra_axioms)
     reds = reds_in(ctx, base)
     ax = []
     for r in reds:
         ax.extend(r._axioms)
-    ax.extend(sum_ext_axioms(reds))
+    ax.extend(sum_ext_axioms(reds, getattr(ctx, '_last_ground_apps', None)))
     allf = base + ax
     if uses_decl(allf, ops.NORM2):
         ax.extend(ops.norm2_axioms(allf))
     return fs + list(extra_axioms) + ax, goal
 
 
-def solve(ctx: Ctx, ob, timeout_ms=None, want_model=False, extra_axioms=()):
+def solve(ctx: Ctx, ob, timeout_ms=None, want_model=False, extra_axioms=(), use_cvc5=True):
     t0 = time.time()
     hyps, goal = build_query(ctx, ob, extra_axioms)
     s = z3.Solver()
@@ -217,6 +373,8 @@ def solve(ctx: Ctx, ob, timeout_ms=None, want_model=False, extra_axioms=()):
     if r == z3.sat:
         return Result("refuted", "z3", dt, model=s.model())
     reason = s.reason_unknown()
+    if not use_cvc5:
+        return Result("unknown", "z3", dt, reason=f"z3: {reason}")
     # second opinion: cvc5 on the same query
     r2 = _cvc5(s)
     dt = time.time() - t0
